@@ -1,4 +1,5 @@
 import Vata.Proofs.RcStore
+import Vata.Proofs.StoreRefine
 /-!
 # C18 – MTBDD nodes live exactly as long as something refers to them
 
@@ -154,13 +155,65 @@ theorem C18_unique_tables_exact (f : Nat → Nat → Nat) (ops : List Op) :
 example : (runF applyOp Ex.ops).dat 11 = .int 10 6 2 ∧ find (10, 6, 2) (runF applyOp Ex.ops).intT = some 11 ∧
     find 3 (runF applyOp Ex.ops).leafT = none := by decide
 
+/-! ### which function a new (or overwritten) handle denotes
+
+`C18_denotation_stable` is about handles that already exist; the following four theorems say what the handle written by
+an operation denotes, after any history (`getValue s h ρ` = `GetValue` of handle `h` under the total assignment `ρ`,
+`none` for a dead handle).  Proofs: `Vata/Proofs/StoreRefine.lean` (refinement of the store operations to the tree model
+of C17). -/
+
+/-- `OndriksMTBDD h(asgn, v, d)` for a fresh name `h`: the new handle has the value `v` on the assignments in the cube
+`asgn` (`M.agrees`; don't-care positions unconstrained) and the default `d` elsewhere -/
+theorem C18_construct_denotes (f : Nat → Nat → Nat) (ops : List Op) (h : Nat) (asgn : List (Option Bool)) (v d : Nat)
+    (hf : find h (runF f ops).hs = none) (ρ : Nat → Bool) :
+    getValue (runF f (ops ++ [.construct h asgn v d])) h ρ = some (if M.agrees ρ asgn 0 = true then v else d) :=
+  construct_getValue f ops h asgn v d hf ρ
+
+example : find 7 (runF applyOp RefineEx.ops).hs = none ∧ (runF applyOp RefineEx.ops).hs.length = 6 := by decide
+
+/-- `OndriksMTBDD dst = apply(a, b)` with leaf operation `f`, for live `a`, `b` and a fresh name `dst`: for every
+assignment the new handle has the value `f` of the operands' values, and the operands keep their values -/
+theorem C18_apply_denotes (f : Nat → Nat → Nat) (ops : List Op) (a b dst : Nat) (ρ : Nat → Bool) (va vb : Nat)
+    (ha : getValue (runF f ops) a ρ = some va) (hb : getValue (runF f ops) b ρ = some vb)
+    (hd : find dst (runF f ops).hs = none) :
+    getValue (runF f (ops ++ [.apply a b dst])) dst ρ = some (f va vb) ∧
+    getValue (runF f (ops ++ [.apply a b dst])) a ρ = some va ∧
+    getValue (runF f (ops ++ [.apply a b dst])) b ρ = some vb :=
+  apply_getValue f ops a b dst ρ va vb ha hb hd
+
+example : getValue (runF applyOp RefineEx.ops) 5 (fun i => i == 0) = some 0 ∧
+    getValue (runF applyOp RefineEx.ops) 1 (fun i => i == 0) = some 5 ∧
+    find 7 (runF applyOp RefineEx.ops).hs = none := by decide
+example : getValue (runF applyOp (RefineEx.ops ++ [.apply 5 1 7])) 7 (fun i => i == 0) = some 5 := by decide
+
+/-- copy constructor `OndriksMTBDD dst(src)` for a live `src` and a fresh name `dst`: the copy denotes what the source
+denotes (it has the same root), and the source is unchanged -/
+theorem C18_copy_denotes (f : Nat → Nat → Nat) (ops : List Op) (src dst r : Nat)
+    (hs : find src (runF f ops).hs = some r) (hd : find dst (runF f ops).hs = none) :
+    find dst (runF f (ops ++ [.copy src dst])).hs = some r ∧
+    ∀ ρ, getValue (runF f (ops ++ [.copy src dst])) dst ρ = getValue (runF f ops) src ρ ∧
+      getValue (runF f (ops ++ [.copy src dst])) src ρ = getValue (runF f ops) src ρ :=
+  ⟨(copy_denotes f ops src dst r hs hd).1, copy_getValue f ops src dst r hs hd⟩
+
+/-- assignment `dst = src` between two different live handles (the old diagram of `dst` is released first, possibly
+freeing nodes shared with `src`): afterwards `dst` has the root of `src` and denotes what `src` denoted, and `src` is
+unchanged.  (Self-assignment: `C18_self_assignment`.) -/
+theorem C18_assign_denotes (f : Nat → Nat → Nat) (ops : List Op) (src dst r r' : Nat) (hne : src ≠ dst)
+    (hs : find src (runF f ops).hs = some r) (hd : find dst (runF f ops).hs = some r') :
+    find dst (runF f (ops ++ [.assign src dst])).hs = some r ∧
+    ∀ ρ, getValue (runF f (ops ++ [.assign src dst])) dst ρ = getValue (runF f ops) src ρ ∧
+      getValue (runF f (ops ++ [.assign src dst])) src ρ = getValue (runF f ops) src ρ :=
+  ⟨(assign_denotes f ops src dst r r' hne hs hd).1, assign_getValue f ops src dst r r' hne hs hd⟩
+
+-- handle 1 (root 2) is overwritten by handle 5 (root 8); the old root 2 stays allocated (an inner node refers to it)
+example : find 5 (runF applyOp RefineEx.ops).hs = some 8 ∧ find 1 (runF applyOp RefineEx.ops).hs = some 2 ∧
+    find 7 (runF applyOp RefineEx.ops).hs = none := by decide
+example : find 1 (runF applyOp (RefineEx.ops ++ [.assign 5 1])).hs = some 8 ∧
+    find 7 (runF applyOp (RefineEx.ops ++ [.copy 5 7])).hs = some 8 := by decide
+
 /-!
 ## not yet proved
 
-* **Which function a new handle denotes.**  `C18_denotation_stable` is about handles that already exist.  That the handle
-  created by `copy` / written by `assign` denotes the function of its source, that the result of `apply` denotes the
-  pointwise `f` of its operands, and that `construct` denotes the cube function, is not proved at store level (it is
-  proved for the tree model, C17; the refinement store → tree model is missing).
 * **"The size it had before" relative to an arbitrary earlier point.**  `C18_all_released` compares with the *initial*
   (empty) store and needs *all* handles to be dead.  The relative form – if the handles created since some earlier point
   of the history are destroyed (and the older ones are untouched) the table sizes are what they were at that point – is
